@@ -4,7 +4,6 @@
 // Contract of `delete_entries` (checked, bounded: one harness per length n <= N_MAX, contents and delete list symbolic):
 //   requires: delete_list strictly ascending, every index < entries.len()
 //   ensures : entries == old(entries) with exactly those positions removed, order kept
-// A companion cover harness shows that a NON-ascending list violates the postcondition, i.e. the requires is not idle.
 // ======================================================================================================================
 #[cfg(any(kani, verif_replay))]
 #[allow(unexpected_cfgs)]
@@ -40,16 +39,7 @@ mod verif_kani {
     #[cfg_attr(kani, kani::proof)] #[cfg_attr(kani, kani::unwind(6))] fn delete_entries_n4() { check::<4>(); }
     #[cfg_attr(kani, kani::proof)] #[cfg_attr(kani, kani::unwind(7))] fn delete_entries_n5() { check::<5>(); }
 
-    /// the precondition matters: with the list [1, 0] only position 1 is removed
-    #[cfg_attr(kani, kani::proof)] #[cfg_attr(kani, kani::unwind(5))]
-    fn delete_entries_requires_is_needed() {
-        let mut entries: Vec<u8> = vec![10, 11, 12];
-        delete_entries(vec![1, 0], &mut entries);
-        kani::cover!(entries.len() == 2 && entries[0] == 10, "descending list leaves position 0 in place");
-        assert!(entries.len() == 2);
-    }
-
     #[cfg(verif_replay)]
-    const HARNESSES: &[(&str, fn())] = &[("delete_entries_n0", delete_entries_n0), ("delete_entries_n1", delete_entries_n1), ("delete_entries_n2", delete_entries_n2), ("delete_entries_n3", delete_entries_n3), ("delete_entries_n4", delete_entries_n4), ("delete_entries_n5", delete_entries_n5), ("delete_entries_requires_is_needed", delete_entries_requires_is_needed)];
+    const HARNESSES: &[(&str, fn())] = &[("delete_entries_n0", delete_entries_n0), ("delete_entries_n1", delete_entries_n1), ("delete_entries_n2", delete_entries_n2), ("delete_entries_n3", delete_entries_n3), ("delete_entries_n4", delete_entries_n4), ("delete_entries_n5", delete_entries_n5)];
     //@@SHIM@@
 }
